@@ -144,24 +144,31 @@ theorem link_fail_clean (sc : Script) (hok : ∀ ps ∈ sc.pipes, OkPipe ps) (hl
 
 /-- After any number `m ≤ n` of stages of an `n`-stage pipeline have been spawned, stage `i`
 holds exactly the read end of pipe `i-1` (its stdin) and the write end of pipe `i` (its stdout)
-— nothing else — and the driver holds read ends only.  Hence the only holder of the write end of
-pipe `j` is stage `j`: when it terminates, stage `j+1` sees end-of-file. -/
+— nothing else — and the driver holds at most ONE descriptor: the close-on-exec read end it is
+about to hand to the next stage (`driverSpec`), and none at all once the last stage is started.
+Hence the only holder of the write end of pipe `j` is stage `j` (when it terminates, stage `j+1`
+sees end-of-file), and once stage `j+1` is started it is the only holder of the read end of pipe
+`j` (when it goes away, stage `j` gets EPIPE/SIGPIPE instead of blocking for ever). -/
 theorem eof_reaches_downstream (n m : Nat) (h : m ≤ n) :
     (fdsAfter true n m).children = (List.range m).map (childSpec n) ∧
-    (∀ f ∈ (fdsAfter true n m).driver, f.side = .rd ∧ f.cloexec = true) ∧
-    (∀ i j, i < m → (j, End.wr) ∈ ((fdsAfter true n m).children.getD i []) → i = j) := by
+    (fdsAfter true n m).driver = driverSpec n m ∧
+    (∀ f ∈ (fdsAfter true n m).driver, f.side = .rd ∧ f.cloexec = true ∧ f.pipe + 1 = m) ∧
+    (∀ i j, i < m → (j, End.wr) ∈ ((fdsAfter true n m).children.getD i []) → i = j) ∧
+    (∀ i j, i < m → (j, End.rd) ∈ ((fdsAfter true n m).children.getD i []) → i = j + 1) := by
   have hinv := fdsAfter_inv n m h
-  refine ⟨hinv.children, ?_, ?_⟩
+  have hget : ∀ i, i < m → ((List.range m).map (childSpec n)).getD i [] = childSpec n i := by
+    intro i hi; simp [List.getD, hi]
+  refine ⟨hinv.children, hinv.driver, ?_, ?_, ?_⟩
   · intro f hf
     rw [hinv.driver] at hf
-    simp only [driverSpec, List.mem_map] at hf
-    obtain ⟨j, _, rfl⟩ := hf
-    exact ⟨rfl, rfl⟩
+    unfold driverSpec at hf
+    split at hf
+    · simp at hf
+    · rename_i hc
+      simp at hf; subst hf
+      exact ⟨rfl, rfl, by simp; omega⟩
   · intro i j hi hj
-    rw [hinv.children] at hj
-    have : ((List.range m).map (childSpec n)).getD i [] = childSpec n i := by
-      simp [List.getD, hi]
-    rw [this] at hj
+    rw [hinv.children, hget i hi] at hj
     unfold childSpec at hj
     simp only [List.mem_append] at hj
     rcases hj with hj | hj
@@ -169,6 +176,21 @@ theorem eof_reaches_downstream (n m : Nat) (h : m ≤ n) :
     · split at hj
       · simp at hj
       · simp at hj; exact hj.symm
+  · intro i j hi hj
+    rw [hinv.children, hget i hi] at hj
+    unfold childSpec at hj
+    simp only [List.mem_append] at hj
+    rcases hj with hj | hj
+    · split at hj
+      · simp at hj
+      · rename_i h0
+        simp at hj; omega
+    · split at hj <;> simp at hj
+
+/-- once every stage is started the driver holds no pipe end at all -/
+theorem driver_holds_nothing (n : Nat) : (fdsAfter true n n).driver = [] := by
+  rw [(fdsAfter_inv n n (Nat.le_refl n)).driver]
+  simp [driverSpec]
 
 /-- Without the two `fcntl(F_SETFD, FD_CLOEXEC)` calls a tool inherits pipe ends that are not its
 own (here: the second stage of three also holds both ends of its own output pipe as extra
@@ -208,11 +230,23 @@ example : (∀ ps ∈ witnessLinkSpawn.pipes, OkPipe ps) := by
   subst hx
   exact ⟨by decide, by decide⟩
 
-/-- an unfair schedule: a tool whose reader went away with status 0 is stuck in `write` and is
-never handed back by `wait()` — the model, like the driver, waits for ever -/
-def witnessHang : Script :=
-  { link := false, pipes := [⟨2, [], [⟨1, .ok⟩], true⟩], linkSpawnOk := true, linkStatus := .ok, linkCreated := true }
+/-- `cproc -c a.c` where the compiler proper exits 0 without reading its input (former finding
+"driver hangs when a reader exits 0 early", fixed by closing the handed-over read end): the
+preprocessor now dies of SIGPIPE, `wait()` hands it back, and the invocation fails cleanly —
+exit 1, output removed, the two remaining stages signalled, nobody left. -/
+def witnessEarlyReader : Script :=
+  { link := false, pipes := [⟨4, [], [⟨1, .ok⟩, ⟨0, .fail⟩, ⟨2, .fail⟩, ⟨3, .fail⟩], true⟩],
+    linkSpawnOk := true, linkStatus := .ok, linkCreated := true }
 
-example : (run witnessHang).exit = none := by decide
+example : (run witnessEarlyReader).exit = some 1 ∧ (run witnessEarlyReader).files.outputs = [] ∧
+    (run witnessEarlyReader).live = [] ∧ (run witnessEarlyReader).signalled = [(0, 2), (0, 3)] := by decide
+
+/-- the model itself still waits for ever on a schedule in which an outstanding child is never
+handed back (that such schedules do not arise is `terminates`' fairness hypothesis) -/
+def pipeUnfair : PipeScript := ⟨2, [], [⟨1, .ok⟩], true⟩
+def witnessUnfair : Script :=
+  { link := false, pipes := [pipeUnfair], linkSpawnOk := true, linkStatus := .ok, linkCreated := true }
+
+example : (run witnessUnfair).exit = none ∧ ¬ Fair pipeUnfair := by decide
 
 end CprocVerif.C18
